@@ -268,9 +268,11 @@ def escalate(pr, key, open_bufs, history_log, fresh_answer, edited_answer):
 def run_history(acc, rng, hist_seed):
     import random
     nlib = rng.choice([0, 1, 1, 2])
-    disk = {"main.asm": "\n".join('.import * from "lib%d.asm"' % k for k in range(nlib)) + ("\n" if nlib else "") + small_program(rng)}
+    # (file names that need escaping in a URI: a blank, a non-ASCII letter, a '#')
+    libname = {k: rng.choice(["lib%d.asm", "lib%d.asm", "lib %d.asm", "lib\u00e4%d.asm", "lib#%d.asm"]) % k for k in range(3)}
+    disk = {"main.asm": "\n".join('.import * from "%s"' % libname[k] for k in range(nlib)) + ("\n" if nlib else "") + small_program(rng)}
     for k in range(nlib):
-        disk["lib%d.asm" % k] = lib_program(rng, k)
+        disk[libname[k]] = lib_program(rng, k)
     disk["orphan.asm"] = "orphan: nop\n"       # a file of the directory that is not part of the project
     disk["sub/util.asm"] = "util: nop\n"      # a subdirectory: its name (and the empty name) is what a half-typed import path says
     pr = L.Project(disk, open_files=())
@@ -343,7 +345,7 @@ def run_history(acc, rng, hist_seed):
                 keep = [k for k in range(nlib) if rng.random() < 0.6]
                 if len(keep) < nlib:
                     flags.add("import-removed")
-                text = "\n".join('.import * from "lib%d.asm"' % k for k in keep) + ("\n" if keep else "") + text
+                text = "\n".join('.import * from "%s"' % libname[k] for k in keep) + ("\n" if keep else "") + text
                 if rng.random() < 0.25:
                     # an import path as it looks while it is being typed: empty, a directory, a directory with a slash
                     flags.add("import-of-directory")
